@@ -70,6 +70,44 @@ def main():
                                  "expected": "a model equal to a fresh compile (recompiling if needed), no exception"})
             if len(failures) >= 3:
                 break
+        # interrupted writer: the real save_model is killed inside its pickle.dump after k bytes (the exception models the process
+        # dying: nothing after that point runs, in particular no clean-up); later calls must still return the model
+        import pickle as _pickle
+        import pymoca.backends.casadi.api as api_
+
+        class Killed(BaseException):
+            pass
+        real_dump = _pickle.dump
+        for k in (0, 1, n // 2, n - 1):
+            cases += 1
+            for name in os.listdir(folder):
+                if name != "M.mo":
+                    os.remove(os.path.join(folder, name))
+
+            def dying_dump(obj, fobj, *a, **kw):
+                fobj.write(blob[:k])
+                fobj.flush()
+                raise Killed()
+            _pickle.dump = dying_dump
+            try:
+                try:
+                    transfer_model(folder, "M", {"cache": True})
+                except Killed:
+                    pass
+            finally:
+                _pickle.dump = real_dump
+            left = sorted(x for x in os.listdir(folder) if x != "M.mo")
+            for attempt in (1, 2):
+                try:
+                    got = fingerprint(transfer_model(folder, "M", {"cache": True}))
+                    if got != ref:
+                        failures.append({"class": "truncated-cache", "input": "writer killed after %d bytes (left %s), call %d" % (k, left, attempt), "observed": "different model %s" % got, "expected": ref})
+                except BaseException as e:  # noqa
+                    failures.append({"class": "truncated-cache", "input": "writer killed after %d bytes (left %s), call %d" % (k, left, attempt),
+                                     "observed": "%s: %s" % (type(e).__name__, str(e)[:100]), "expected": "a model equal to a fresh compile, no exception"})
+                    break
+            if len(failures) >= 3:
+                break
         # absent cache file
         cases += 1
         if os.path.exists(cache):
@@ -81,7 +119,7 @@ def main():
             failures.append({"class": "truncated-cache", "input": "absent", "observed": "%s: %s" % (type(e).__name__, e), "expected": "recompile"})
     if payload.get("mode") == "bounded":
         print(json.dumps({"performed": True, "cases": cases, "distinct_nontrivial": cases, "failures": failures,
-                          "rule": "a real .pymoca_cache is truncated at %d offsets (incl. 0, 1, n-1) and replaced by garbage; the next real transfer_model(cache=True) must return a model whose variables and residual equal a fresh compile" % len(offsets),
+                          "rule": "a real .pymoca_cache is truncated at %d offsets (incl. 0, 1, n-1) and replaced by garbage, and the real save_model is killed inside its write after 0, 1, n/2, n-1 bytes; the next real transfer_model(cache=True) must return a model whose variables and residual equal a fresh compile" % len(offsets),
                           "bound": "one model, %d file variants" % cases}))
     else:
         f = failures[0] if failures else None
